@@ -32,6 +32,27 @@ PROPS["C07"] = {
     "assumptions": ["feed_data/unread_data precondition: len + data.len() <= usize::MAX (sum of live allocations cannot exceed the address space)"],
 }
 
+PROPS["C02"] = {
+    "units": ["h1_transfer_encoding"],
+    "kani": [],
+    "technique": "Verus contracts on the extracted real TransferEncoding encoder against an RFC 7230 chunk-framing oracle (exact bytes appended, length enforcement, terminator exactly once, short body is an error)",
+    "level_text": "deductive proof, for all chunk contents/lengths and encoder states, that TransferEncoding::encode/encode_eof append exactly the oracle's bytes (chunked: hex CRLF data CRLF, terminator once; sized: cut to the declared length; eof: pass-through) and that a short sized body yields UnexpectedEof",
+    "level_note": "assumes shim contracts for bytes::BytesMut and that writeln!(MutWriter(buf), \"{:X}\\r\", n) appends upper-hex(n) CR LF (R12); dispatcher-level clauses (one response per request, ordering, independence across pipelined requests) are listed under not_decided_clauses",
+    "not_decided": ["exactly one final response per dispatched request, in request order, never interleaved (h1::Dispatcher state machine: not under contract)",
+                    "framing depends only on that request/response, not on other pipelined requests (Codec context held while a response is in flight; DESIGN.md S1)",
+                    "status-dependent header rules of MessageType::encode_headers (no body for 1xx/204/304, Content-Length/Transfer-Encoding/Connection headers)"],
+    "assumptions": ["TransferEncoding::encode precondition: msg.len() + 2 <= usize::MAX (a slice cannot span the whole address space)"],
+}
+PROPS["C18"] = {
+    "units": ["http_header_map"],
+    "kani": [],
+    "technique": "Verus contracts on the extracted real HeaderMap over an abstract view Map<name, Seq<value>> with representation invariant (no empty value list) and whole-view postconditions",
+    "level_text": "deductive proof, for every map state and argument, that insert/append/remove/clear/get/contains_key/len_keys/is_empty transform the abstract multimap exactly as a reference multimap would (all other keys unchanged, order within a name preserved), preserve the representation invariant, and that the Removed iterator yields the old values in order with an exact size hint; every operation history is covered by induction over the invariant",
+    "level_note": "assumes vstd's std HashMap specification (incl. entry API), the SmallVec shim (Vec-like), HeaderName obeys the hash key model and is already lower-cased by the http crate (case-insensitivity rests on that); closures (retain, Removed::new) are external_body with assumed contracts",
+    "not_decided": ["conversion to/from http::HeaderMap beyond from_drain's own loop (http crate internals)", "case-insensitive comparison: delegated to http::HeaderName normalisation (dependency)"],
+    "assumptions": [],
+}
+
 _PENDING = "not claimed yet: contracts for this property are still under construction in this session"
 NOT_APPLICABLE = {("C%02d" % i): _PENDING for i in range(1, 20)}
 NOT_APPLICABLE["C06"] = "every clause is about instants (deadlines vs. arrival times, runtime timer ordering); no function contract expresses virtual time or scheduler ordering (DESIGN.md section 4 C06)"
